@@ -166,6 +166,15 @@ CLAIMED = {
              'Document.paths, paths_from_group, svg2paths and SaxDocument.flatten_all_paths vs a reference flattener.',
         note='XML layers run concretely on the token strings. Transformed arcs (circle/ellipse/rounded rect under a non-identity transform) are outside: the Arc branch of transform() raises TypeError under numpy 2.5 here. rx/ry clamping of rounded rects is outside. Nesting deeper than 2 outside.',
         design='3/C17'),
+    'C18': dict(
+        text='The I/O stack runs concretely; the payload is symbolic: lists of 1-2 paths of 1-2 Line/Quadratic/Cubic/Arc segments with symbolic '
+             'coordinates are written with wsvg / Document.add_path+save / SaxDocument.save and read back with svg2paths2, Document.paths, '
+             'SaxDocument (9 writer x reader pairs): same number, order and segments for all coordinates of every coincidence pattern '
+             '(z3), per-path attributes (incl. a namespace-prefixed one) and svg-level attribute sets (full, width only, height only) '
+             'come back unchanged.  Document histories new/loaded x root/group: an added path is returned by paths() before and after '
+             'save/reload.',
+        note='The solver decides the coordinate/coincidence part (as in C01); the rest is structural comparison on each explored path. One recorded known finding (Document.add_path element is un-namespaced). XML and file-system layers are executed, not modelled.',
+        design='3/C18'),
 }
 
 NOT_YET = 'check not built yet in this round (see DESIGN.md section 3 for the plan)'
